@@ -148,7 +148,7 @@ RSH_HANDLERS = ["default", "ign", "user3", "user4"]        # user3 raises, user4
 KEY_DATA = {"key": b"a", "keys2": b"bc", "paste": b"pastedtextxyz", "badkey": b"\x1b\xc3\xa9"}
 MAXSNAPS = 48
 RESULT_FD = 200
-SCENARIO_TIMEOUT = 60.0
+SCENARIO_TIMEOUT = 15.0        # a scenario takes 20-60 ms on the unchanged tree; the 1000-cycle leak loops about 1 s
 
 
 class Cut(Exception):
@@ -680,6 +680,7 @@ def run(inp):
     chunks = []
     deadline = real_time.time() + SCENARIO_TIMEOUT
     timed_out = False
+    finished = False
     try:
         while True:
             left = deadline - real_time.time()
@@ -691,11 +692,12 @@ def run(inp):
                 break
             d = os.read(rfd, 1 << 16)
             if not d:
+                finished = True
                 break
             chunks.append(d)
     finally:
         os.close(rfd)
-        if timed_out:
+        if not finished:           # timed out, or interrupted from outside (lib's budget alarm): never wait for a hung child
             try:
                 os.kill(pid, signal.SIGKILL)
             except OSError:
